@@ -16,6 +16,7 @@ import (
 
 	"github.com/smart-core-os/sc-api/go/traits"
 	sctime "github.com/smart-core-os/sc-api/go/types/time"
+	"github.com/smart-core-os/sc-golang/internal/verifhook"
 	"github.com/smart-core-os/sc-golang/pkg/resource"
 	"github.com/smart-core-os/sc-golang/pkg/trait/bookingpb"
 	"github.com/smart-core-os/sc-golang/verifharness/lib"
@@ -112,7 +113,9 @@ func showBookingChange(c *traits.PullBookingsResponse_Change) string {
 	return fmt.Sprintf("%s,%s,0,%s,%s,0,0", id, kindName(c.Type), old, new)
 }
 
-func (c bookingCase) run(m *lib.Monitor) {
+// run drives the case through the real server and evaluates the property; it returns a trace of what
+// was observed at every step (for the replay file of a violation).
+func (c bookingCase) run(m sink) (trace []string) {
 	model := bookingpb.NewModel()
 	server := bookingpb.NewModelServer(model)
 	client := bookingpb.WrapApi(server)
@@ -138,10 +141,35 @@ func (c bookingCase) run(m *lib.Monitor) {
 		}
 	}
 	query := parseP(c.Query)
+	// The wrapper runs the PullBookings handler in its own goroutine: the subscription exists only some
+	// time after the call returns.  A write racing with it is the business of C03/C04 (Update publishes
+	// after releasing the lock: a subscriber that snapshots between a commit and its publication is sent
+	// that ADD twice, once as seed and once live - a known finding of C03), not of this property, which
+	// is about ONE subscriber's filtered stream under the writes that follow its subscription.  So wait
+	// until the handler is inside Collection.onUpdate: from that yield point until the listener is
+	// registered it holds the collection's read lock, hence every later write commits - and publishes -
+	// after the registration.
+	subscribing := make(chan struct{}, 1)
+	verifhook.Set(func(point string) {
+		if point == "coll.onUpdate.beforeListen" {
+			select {
+			case subscribing <- struct{}{}:
+			default:
+			}
+		}
+	})
+	defer verifhook.Set(nil)
 	stream, err := client.PullBookings(ctx, &traits.ListBookingsRequest{BookingIntersects: query})
 	if err != nil {
 		m.Violate("C08/booking/pull-error", "PullBookings failed", c, "stream", err.Error())
 		return
+	}
+	select {
+	case <-subscribing:
+		trace = append(trace, "subscription observed at coll.onUpdate.beforeListen")
+	case <-time.After(fenceTimeout):
+		m.Count("subscription not observed at the yield point")
+		trace = append(trace, "subscription NOT observed at coll.onUpdate.beforeListen within 5s")
 	}
 	type recvd struct {
 		ch  *traits.PullBookingsResponse_Change
@@ -210,6 +238,8 @@ func (c bookingCase) run(m *lib.Monitor) {
 		return strings.Join(parts, ",")
 	}
 	foldAndCheck := func(evs []string, step string) bool {
+		trace = append(trace, fmt.Sprintf("after %s: events %s", step, showChanges(evs)))
+		defer func() { trace = append(trace, fmt.Sprintf("after %s: view %v want %s", step, view, filtered())) }()
 		for _, ev := range evs {
 			f := splitComma(ev)
 			if len(f) != 7 {
@@ -259,6 +289,7 @@ func (c bookingCase) run(m *lib.Monitor) {
 		for _, b := range lst.Bookings {
 			parts = append(parts, b.Id+"="+showP(b.Booked))
 		}
+		trace = append(trace, fmt.Sprintf("after %s: ListBookings %s", step, strings.Join(parts, ",")))
 		if l := strings.Join(parts, ","); l != want {
 			m.Violate("C08/booking/ListBookings/not-filtered-collection", "ListBookings(booking_intersects) is not the intersecting bookings", c, want+" after "+step, l)
 			return false
@@ -271,6 +302,7 @@ func (c bookingCase) run(m *lib.Monitor) {
 			m.Eval("empty-query", false, nil)
 			return
 		}
+		trace = append(trace, "seed fence lost: "+showChanges(evs))
 		m.Violate("C08/booking/PullBookings/fence-lost", "a newly created intersecting booking was not delivered within 5s", c, "ADD", showChanges(evs))
 		return
 	}
@@ -284,6 +316,7 @@ func (c bookingCase) run(m *lib.Monitor) {
 		}
 		evs, ok := drain()
 		if !ok {
+			trace = append(trace, "fence lost after "+op+": "+showChanges(evs))
 			m.Violate("C08/booking/PullBookings/fence-lost", "a newly created intersecting booking was not delivered within 5s", c, "ADD", showChanges(evs))
 			return
 		}
@@ -292,6 +325,12 @@ func (c bookingCase) run(m *lib.Monitor) {
 		}
 	}
 	m.Eval(c.Query+"/"+strings.Join(c.Ops, " "), true, nil)
+	return
+}
+
+// runConfirmed evaluates the case, re-running it on a fresh server before a violation is reported.
+func (c bookingCase) runConfirmed(res *lib.Result, m sink) {
+	confirmed(res, m, func(s sink) any { return c.run(s) }, func(t1, t2 any) any { return enrich(c, t1, t2) })
 }
 
 // genPeriod draws a period shape: no period at all (only when allowNil), unbounded `{}`, start-only,
@@ -336,7 +375,7 @@ func runBooking(f lib.Flags, res *lib.Result) {
 					c.Ops = append(c.Ops, "set:b:"+bookingShapes[(k+5)%len(bookingShapes)])
 				}
 			}
-			c.run(mon)
+			c.runConfirmed(res, mon)
 			mon.Count("query " + q)
 		}
 	}
@@ -346,6 +385,6 @@ func runBooking(f lib.Flags, res *lib.Result) {
 		for j := 0; j < k; j++ {
 			c.Ops = append(c.Ops, "set:"+ids[r.Intn(len(ids))]+":"+genPeriod(r, "nil"))
 		}
-		c.run(mon)
+		c.runConfirmed(res, mon)
 	}
 }
